@@ -156,6 +156,10 @@ class QCircuit:
         """Return a copy of the QCircuit repeated n times"""
         o = self.copy()
         n_qc = self.copy()
+        if n == 0:
+            n_qc.gates = []
+            n_qc.gates_computed = []
+            return n_qc
         for i in range(n - 1):
             n_qc += o.copy()
         return n_qc
